@@ -7,6 +7,7 @@ From M Require NearSpec.
 From M Require UnitTable.
 From M Require NumSyntax.
 From M Require ArrayRoundTrip.
+From M Require Tie.
 From M Require DecSpec.
 From M Require GFmt.
 From M Require GFmtSpec.
@@ -186,4 +187,15 @@ Theorem C04_read_uint_item :
 Proof. exact (@ArrayRoundTrip.read_uint_item). Qed.
 End T_read_uint_item.
 Definition C04_read_uint_item := @T_read_uint_item.C04_read_uint_item.
+
+Module T_tie_ctype. Import Tie. Local Open Scope bool_scope. Local Open Scope Z_scope.
+Local Open Scope Z_scope.
+Theorem C04_tie_ctype :
+  same_class MatchModel.islower Generated.gen_cc_islower = true /\ same_class MatchModel.isupper Generated.gen_cc_isupper = true /\
+  same_class MatchModel.isdigit Generated.gen_cc_isdigit = true /\ same_class MatchModel.isspace Generated.gen_cc_isspace = true /\
+  same_class ParserModel.isspace Generated.gen_cc_isspace = true /\
+  map MatchModel.tolower bytes256 = Generated.gen_tolower.
+Proof. exact (@Tie.tie_ctype). Qed.
+End T_tie_ctype.
+Definition C04_tie_ctype := @T_tie_ctype.C04_tie_ctype.
 
